@@ -319,6 +319,19 @@ def body(prop, args, seed, t0):
                 tie_broken("translated_check_t8", bad8, "translator disagreement (_serde.py)")
         # --- T8 end
 
+        # --- T13: the translated `Wavefunction` class and state views (harness/tables_t13.py: C12 object methods, C04 views) are run in the
+        # driver (tag "TRT13") over the models' numpy / sympy stand-ins and compared with the REAL class on seeded call histories
+        # (harness/translated_check_t13.py)
+        from harness import translated_check_t13 as _t13
+        if prop in _t13.PROPS and driver.available() and (build_ok or common.lake_build(["oqdriver"])[0]):
+            n13, bad13, untr13, listed13 = _t13.run(seed, only=prop)
+            tie["translated_t13_vs_real_class"] = n13
+            tie["translated_functions"] = list(tie.get("translated_functions", [])) + listed13
+            tie["untranslatable_now"] = list(tie.get("untranslatable_now", [])) + untr13
+            if bad13:
+                tie_broken("translated_check_t13", bad13, "translator disagreement (Wavefunction class)")
+        # --- T13 end
+
     except Timeout:
         raise
     except Exception as e:  # noqa: BLE001
